@@ -210,6 +210,25 @@ func (w *worker) checkBits(caseID string, bits uint32, order bool) (tgt, work *b
 			"CompactToBig": got.String(), "oracle_target": w.t.String(), "CalculateWork": wk.String(),
 		}
 	}
+	// the functions are pure: asking again (every 16th value is asked three times in a row) gives the same answers and
+	// leaves the values handed out before untouched
+	if bits&15 == 3 && got != nil {
+		t0, w0 := new(big.Int).Set(got), new(big.Int).Set(wk)
+		for k := 2; k <= 3; k++ {
+			gk := domains.CompactToBig(bits)
+			wkk := domains.CalculateWork(bits).BigInt()
+			if gk == nil || gk.Cmp(t0) != 0 || wkk.Cmp(w0) != 0 || got.Cmp(t0) != 0 || wk.Cmp(w0) != 0 {
+				d := detail()
+				d["call"] = k
+				d["CompactToBig_again"], d["CalculateWork_again"] = fmt.Sprint(gk), wkk.String()
+				d["first_target_now"], d["first_work_now"] = got.String(), wk.String()
+				got, wk = t0, w0
+				w.violate("purity|repeated-call", fmt.Sprintf("call %d of CompactToBig/CalculateWork(0x%08x) in a row answers differently from the first, or changed the value the first call handed out", k, bits), caseID, d)
+				break
+			}
+		}
+		w.counters["values_asked_three_times_in_a_row"]++
+	}
 	if got == nil || got.Cmp(&w.t) != 0 {
 		w.violate("target|exp="+expClass(exp)+"|sign="+sgn,
 			fmt.Sprintf("CompactToBig(0x%08x) = %v, expected sign x mantissa x 256^(exp-3) = %s", bits, got, w.t.String()), caseID, detail())
